@@ -68,7 +68,12 @@ func runScenario(o *vrt.Obs, sc *b2fx.Scenario, tag string) {
 	lg := &mem.Log{}
 	a, b := sc.Stations(lg)
 	sa, sb := sc.Sides(a, b)
-	res, _ := b2fx.RunPair(sa, sb, vpipe.Plan{Seed: 1, Seg: sc.Seg, CutDir: vpipe.NoCut}, false)
+	// one scenario in three runs on a link with flow control (1, 7 or 200 bytes in flight per direction)
+	capacity := []int{0, 0, 0, 0, 0, 0, 1, 7, 200}[(len(sc.MsgsA)*7+len(sc.MsgsB)*3+sc.Seg)%9]
+	res, _ := b2fx.RunPair(sa, sb, vpipe.Plan{Seed: 1, Seg: sc.Seg, CutDir: vpipe.NoCut, Capacity: capacity}, false)
+	if capacity > 0 {
+		o.Count("sessions_on_flow_controlled_link", 1)
+	}
 	ev := lg.Events()
 	b2fx.EventCounts(o, ev)
 	before := len(o.Violations)
